@@ -22,13 +22,22 @@ void ::sqf::parser::sqf::formatter::formatter::prettify(const ::sqf::parser::sqf
     case bison::astkind::EXP8:
     case bison::astkind::EXP9:
     {
+        // The tree no longer contains the parentheses of the input: re-emit them wherever an
+        // operand groups differently than precedence and left-associativity would read it.
+        auto is_binary = [](const bison::astnode& n) { return n.kind >= bison::astkind::EXP0 && n.kind <= bison::astkind::EXP9; };
+        bool left_parens = is_binary(node.children[0]) && node.children[0].kind < node.kind;
+        bool right_parens = is_binary(node.children[1]) && node.children[1].kind <= node.kind;
+        if (left_parens) { buff << "("; }
         this->prettify(node.children[0], depth, buff);
+        if (left_parens) { buff << ")"; }
         buff << " ";
         auto s = std::string(node.token.contents);
         std::transform(s.begin(), s.end(), s.begin(), [](char& c) { return (char)std::tolower((int)c); });
         buff << s;
         buff << " ";
+        if (right_parens) { buff << "("; }
         this->prettify(node.children[1], depth, buff);
+        if (right_parens) { buff << ")"; }
     }
     break;
     case bison::astkind::EXPU:
@@ -38,16 +47,15 @@ void ::sqf::parser::sqf::formatter::formatter::prettify(const ::sqf::parser::sqf
         buff << s;
         buff << " ";
 
-        if (s == "if" && node.children[0].token.contents != "!")
-            buff << "(";
-        else if (s == "!")
+        // a binary expression as operand of a unary operator needs its parentheses back
+        bool parens = (s == "if" && node.children[0].token.contents != "!") || s == "!"
+            || (node.children[0].kind >= bison::astkind::EXP0 && node.children[0].kind <= bison::astkind::EXP9);
+        if (parens)
             buff << "(";
 
         this->prettify(node.children[0], depth, buff);
 
-        if (s == "if" && node.children[0].token.contents != "!")
-            buff << ")";
-        else if (s == "!")
+        if (parens)
             buff << ")";
     }
     break;
